@@ -95,7 +95,7 @@ def decide(pid, tier, seed, keep=False, only_obligation=None):
         hs = []
         for u in kunits:
             for h in u["kani"].get("harnesses", []):
-                if _tier_ok(h, tier) and _wanted(h, pid):
+                if _tier_ok(h, tier) and _wanted(h, pid) and not (tier == "quick" and any(re.search(x, h["name"]) for x in P.get("quick_skip", []))):
                     if only_obligation and only_obligation != "%s::%s" % (u["id"], h["name"]):
                         continue
                     hs.append((u, h))
